@@ -80,7 +80,7 @@ def bookkeeping_cases(ctx, n_multinets):
     from pandapipes.multinet.create_multinet import create_empty_multinet, add_nets_to_multinet
     rng = ctx.rng
     Stub = stub_class()
-    eval_cases, order_cases, descr = [], [], []
+    eval_cases, order_cases, descr, init_cases = [], [], [], []
     for _ in range(n_multinets):
         k = rng.randint(1, 5)
         mn = create_empty_multinet("m")
@@ -122,6 +122,23 @@ def bookkeeping_cases(ctx, n_multinets):
                 ctx.violation({"fn": "prepare_run_ctrl", "raises": type(e).__name__},
                               "prepare_run_ctrl raises %r on a well-formed multinet" % (e,), d)
             continue
+        # net_initialization_multinet with scripted initial runs (OPF_converged exists on pandapower nets only)
+        for _rep in range(2):
+            iflags = [rng.random() < 0.75 for _i in range(k)]
+            for i, nm in enumerate(names):
+                def mk0(i=i):
+                    def run(net, **kw):
+                        net["converged"] = iflags[i]
+                    return run
+                cv["nets"][nm]["run"] = mk0()
+                cv["nets"][nm]["initial_run"] = True
+                nets[nm]["OPF_converged"] = False
+            try:
+                out0 = rcm.net_initialization_multinet(mn, cv)
+                init_cases.append(("(%s, %s)" % (clist([cbool(f) for f in iflags]), cbool(bool(out0["converged"]))),
+                                   {"initial_run_flags": iflags, "observed_converged": bool(out0["converged"])}))
+            except Exception as e:
+                ctx.broken("correspondence", "net_initialization_multinet raised", repr(e))
         active = [c for c in ctrls if c["in_service"]]
         levels = [int(l) for l in cv["level"]] if active else []
         obs_order = [[by_obj[id(c)]["id"] for c, _ in lo] for lo in cv["controller_order"]] if active else []
@@ -163,7 +180,7 @@ def bookkeeping_cases(ctx, n_multinets):
                      "observed_flags": obs_flags, "observed_converged": obs_conv}
                 descr.append(d)
                 ctx.case(d, k > 1 and len(lo_ctrls) > 0)
-    return eval_cases, order_cases, descr
+    return eval_cases, order_cases, descr, init_cases
 
 
 def expected_eval(d):
@@ -179,9 +196,11 @@ def expected_eval(d):
 
 
 def run_bookkeeping(ctx):
-    eval_cases, order_cases, descr = bookkeeping_cases(ctx, 60 if ctx.quick else 1500)
+    eval_cases, order_cases, descr, init_cases = bookkeeping_cases(ctx, 60 if ctx.quick else 1500)
+    init_descr = [d for _, d in init_cases]
     for name, cases, typ, okf in (("evaluate_multinet", eval_cases, "eval_case", "eval_case_ok"),
-                                  ("controller_order", order_cases, "order_case", "order_case_ok")):
+                                  ("controller_order", order_cases, "order_case", "order_case_ok"),
+                                  ("net_initialization", [c for c, _ in init_cases], "(list bool * bool)", "init_case_ok")):
         tot, mis, bad = 0, 0, []
         for s in range(0, len(cases), 300):
             part = cases[s:s + 300]
@@ -214,6 +233,12 @@ def run_bookkeeping(ctx):
                 else:
                     ctx.violation({"fn": "_evaluate_multinet", "clause": "member_flags"},
                                   "member flags %s differ from %s" % (d["observed_flags"], flags), d)
+        elif name == "net_initialization":
+            for i in bad[:2]:
+                d = init_descr[i]
+                ctx.violation({"fn": "net_initialization_multinet", "clause": "init_converged_is_all"},
+                              "after the initial runs the multinet is flagged converged=%s although the members' flags are %s"
+                              % (d["observed_converged"], d["initial_run_flags"]), d)
         elif bad:
             ctx.broken("correspondence", "controller order differs from the model", "case %d: %s" % (bad[0], order_cases[bad[0]][:600]))
 
@@ -274,8 +299,39 @@ def build_heat(rng, name):
                                                u_w_per_m2k=rng.choice([1.0, 5.0, 10.0]), text_k=283.15)
     for j in js[1:]:
         pandapipes.create_sink(net, j, dy(rng, 0.5, 2, 16))
-    pandapipes.set_user_pf_options(net, mode="sequential", use_numba=False)
+    # a heat exchanger in front of an extra consumer: its heat flow is what a power-to-heat coupling sets
+    jx = pandapipes.create_junction(net, 6, 340.)
+    pandapipes.create_heat_exchanger(net, js[-1], jx, qext_w=-2e4)
+    pandapipes.create_sink(net, jx, dy(rng, 0.5, 2, 16))
+    pandapipes.set_user_pf_options(net, mode=rng.choice(["sequential", "bidirectional"]), use_numba=False)
     return net
+
+
+def p2h_class():
+    from pandapower.control.basic_controller import Controller
+
+    class P2H(Controller):
+        """user-written thermal coupling owned by the multinet (pandapipes ships none): electric boiler,
+        heat_exchanger.qext_w = - p_mw * scaling * 1e6 * efficiency (heat fed into the water)"""
+        def __init__(self, multinet, idx_load, idx_hex, efficiency, **kw):
+            super().__init__(multinet, **kw)
+            self.idx_load, self.idx_hex, self.efficiency, self.applied = idx_load, idx_hex, efficiency, False
+
+        def get_all_net_names(self):
+            return ["power", "heat"]
+
+        def initialize_control(self, multinet):
+            self.applied = False
+
+        def control_step(self, multinet):
+            load = multinet["nets"]["power"].load
+            multinet["nets"]["heat"].heat_exchanger.at[self.idx_hex, "qext_w"] = \
+                -load.at[self.idx_load, "p_mw"] * load.at[self.idx_load, "scaling"] * 1e6 * self.efficiency
+            self.applied = True
+
+        def is_converged(self, multinet):
+            return self.applied
+    return P2H
 
 
 def set_value_class():
@@ -395,8 +451,13 @@ def scenario(ctx, kind):
         heat_set = (int(nets["heat"].sink.index[-1]), dy(rng, 0.5, 3, 16))
         set_value_class()(nets["heat"], "sink", "mdot_kg_per_s", heat_set[0], heat_set[1],
                           order=rng.choice(orders), level=rng.choice(levels), initial_run=ini)
+    p2h = None
+    if "heat" in nets and "power" in nets and pools[("power", "load")]:
+        li = pools[("power", "load")].pop(0)
+        p2h = (int(li), dy(rng, 0.5, 1, 16))
+        p2h_class()(mn, p2h[0], 0, p2h[1], order=rng.choice(orders), level=rng.choice(levels), initial_run=ini)
     return mn, nets, cps, {"kind": kind, "fluids": [f1, f2], "levels": levels, "orders": orders, "initial_run": ini,
-                           "heat_member": heat_set}
+                           "heat_member": heat_set, "power_to_heat": p2h}
 
 
 VALUE_COL = {"load": "p_mw", "sgen": "p_mw", "gen": "p_mw", "sink": "mdot_kg_per_s", "source": "mdot_kg_per_s"}
@@ -508,6 +569,16 @@ def monitor_multinets(ctx, n):
                               "heat member: sink %s set to %r by its own controller, table has %r, result %r"
                               % (hi, hv, nets["heat"].sink.at[hi, "mdot_kg_per_s"],
                                  nets["heat"].res_sink.at[hi, "mdot_kg_per_s"]), desc)
+        if desc.get("power_to_heat"):
+            ctx.count("multinet_with_thermal_coupling")
+            li, eta = desc["power_to_heat"]
+            exp = -float(nets["power"].load.at[li, "p_mw"]) * float(nets["power"].load.at[li, "scaling"]) * 1e6 * eta
+            got = float(nets["heat"].heat_exchanger.at[0, "qext_w"])
+            res = float(nets["heat"].res_heat_exchanger.at[0, "t_to_k"]) - float(nets["heat"].res_heat_exchanger.at[0, "t_from_k"])
+            if got != exp or not res > 0:
+                ctx.violation({"fn": "run_control", "clause": "thermal_coupling_in_heat_member"},
+                              "power-to-heat coupling: heat_exchanger.qext_w = %r (expected %r), temperature rise over the "
+                              "exchanger %r K (heat is fed in, must be > 0)" % (got, exp, res), desc)
         for n_, net in nets.items():
             try:
                 alone = standalone(net)
@@ -681,7 +752,7 @@ def monitor_init_any(ctx):
             ctx.case(d, True)
             ctx.count("init_any_" + out)
             if out == "returned" and not all(flags.values()):
-                ctx.violation({"fn": "net_initialization_multinet", "clause": "init_or_is_and",
+                ctx.violation({"fn": "net_initialization_multinet", "clause": "init_converged_is_all",
                                "needs": "no in-service controller, run function that tolerates divergence"},
                               "run_control returned normally (ctrl_variables['converged'] = max of the initial-run flags) "
                               "although the initial run of member power did not converge: %s" % flags, d)
